@@ -168,6 +168,23 @@ for _pid, _extra in ROUND14.items():
     _l, _t, _text, _n, _r = CHECKS[_pid]
     CHECKS[_pid] = (_l, _t, _text + _extra, _n, _r)
 
+ROUND15 = {
+    "C03": " Round 15: clones made right below their function, above a helper; interpreters with a late registration.",
+    "C05": " Round 15: metadata stays forgotten when the call is made again with the same result.",
+    "C07": " Round 15: mementos of forgotten / re-memoized calls never read another call's bytes.",
+    "C10": " Round 15: a resource looked at twice in one body.",
+    "C12": " Round 15: the empty explicit version.",
+    "C13": " Round 15: an attribute that starts being served by a module __getattr__; from-scratch oracle for event sequences.",
+    "C14": " Round 15: hidden calls with the caller behind chains of modifiers.",
+    "C15": " Round 15: dates and their spellings as elements; elements that evaluate batches of their own.",
+    "C17": " Round 15: a parent published under a key override whose names the child's store knows too.",
+    "C18": " Round 15: repositories that share a name.",
+    "C19": " Round 15: the same null-storage call made repeatedly within one invocation.",
+}
+for _pid, _extra in ROUND15.items():
+    _l, _t, _text, _n, _r = CHECKS[_pid]
+    CHECKS[_pid] = (_l, _t, _text + _extra, _n, _r)
+
 NOT_BUILT = "check not built yet in this round (design in DESIGN.md §4); will be claimed once its monitor exists"
 
 
